@@ -9,6 +9,7 @@ pub mod model;
 pub mod geninst;
 pub mod genmod;
 pub mod refparse;
+pub mod loadcmp;
 pub mod mutate;
 pub mod rs;
 pub mod dump;
